@@ -27,6 +27,72 @@ func init() {
 	register(c09{})
 	workers["c09"] = c09Worker
 	workers["c09d"] = c09dWorker
+	workers["c09a"] = c09aWorker
+}
+
+// c09aWorker: worker c09a <historyfile>: runs the in-process part (deadline sweep or depth scenario) of one history
+// in a child and prints its Outcome. The parent can then survive (and report) an evaluation that never stops
+// polling-free or a fatal stack overflow.
+func c09aWorker(args []string) int {
+	h, err := core.LoadHistory(args[0])
+	if err != nil {
+		return 2
+	}
+	var o *core.Outcome
+	if h.Strs["sub"] == "deadline" {
+		o = c09{}.execDeadline(h)
+	} else {
+		o = c09{}.execDepth(h)
+	}
+	_ = json.NewEncoder(os.Stdout).Encode(o)
+	return 0
+}
+
+// inChild runs execDeadline / execDepth of h in a worker process under a real-time watchdog.
+func (c09) inChild(h *core.History) *core.Outcome {
+	base := os.Getenv("VERIF_TMP")
+	if base == "" {
+		base = os.TempDir()
+	}
+	f, err := os.CreateTemp(base, "c09-*.json")
+	if err != nil {
+		panic(err)
+	}
+	defer os.Remove(f.Name())
+	b, _ := json.Marshal(h)
+	_, _ = f.Write(b)
+	f.Close()
+	self, _ := os.Executable()
+	ctx, cancel := context.WithTimeout(context.Background(), 180*time.Second)
+	defer cancel()
+	cmd := exec.CommandContext(ctx, self, "worker", "c09a", f.Name())
+	var ob, eb bytes.Buffer
+	cmd.Stdout, cmd.Stderr = &ob, &eb
+	err = cmd.Run()
+	key := h.Strs["sub"] + "|" + h.Strs["key"]
+	if ctx.Err() != nil {
+		return &core.Outcome{Viol: &core.Violation{Oracle: "returns-after-deadline", Sig: "C09|" + key + "|evaluation-does-not-stop",
+			Detail: fmt.Sprintf("sub-scenario %s, program %q: the evaluation did not come back (worker killed after 180 s of real time; with a virtual deadline armed it must return after a bounded number of context polls)", h.Strs["sub"], h.Strs["key"])},
+			Stats: core.Stats{Shape: shapeOf([]string{key, "hung"}), Children: 1, Nontrivial: true}}
+	}
+	if err != nil {
+		msg := eb.String()
+		kind := "exit"
+		if strings.Contains(msg, "stack overflow") {
+			kind = "stack-overflow"
+		} else if strings.Contains(msg, "out of memory") {
+			kind = "out-of-memory"
+		}
+		return &core.Outcome{Viol: &core.Violation{Oracle: "process-survives", Sig: "C09|" + key + "|process-dies|" + kind,
+			Detail: fmt.Sprintf("sub-scenario %s, program %q: the interpreter process died: %v %s", h.Strs["sub"], h.Strs["key"], err, trunc(tailStr(msg, 300), 300))},
+			Stats: core.Stats{Shape: shapeOf([]string{key, "died"}), Children: 1, Nontrivial: true}}
+	}
+	var o core.Outcome
+	if json.Unmarshal(ob.Bytes(), &o) != nil {
+		return &core.Outcome{Stats: core.Stats{Discarded: true, Shape: "bad-child-output", Panics: []string{trunc(ob.String(), 100)}}}
+	}
+	o.Stats.Children++
+	return &o
 }
 
 func (c09) ID() string { return "C09" }
@@ -49,7 +115,7 @@ func (c09) Budget(tier string) core.Budget {
 	if tier == "thorough" {
 		return core.Budget{Runs: 3600, WallCap: 25 * time.Minute}
 	}
-	return core.Budget{Runs: 252, WallCap: 50 * time.Second}
+	return core.Budget{Runs: 204, WallCap: 50 * time.Second}
 }
 
 type c09prog struct {
@@ -216,10 +282,8 @@ func (c c09) Execute(h *core.History) *core.Outcome {
 	switch h.Strs["sub"] {
 	case "nopoll":
 		return c.execNoPoll(h)
-	case "deadline":
-		return c.execDeadline(h)
-	case "depth":
-		return c.execDepth(h)
+	case "deadline", "depth":
+		return c.inChild(h)
 	default:
 		return c.execMemory(h)
 	}
